@@ -34,7 +34,8 @@ MANIFEST = {
             'task reaches exactly one final state; DONE iff exit 0 and no '
             'fault; FAILED with exit code / exception otherwise; CANCELED only '
             'if requested; all component threads alive; the second wave '
-            'completes.',
+            'completes.'
+            '  Second session: endings include a process group killed by a signal RP did not send (must end FAILED with a non-zero exit code); waits are activity based (no transport event for 12 s after the budget = stuck, busy at 240 s = inconclusive).',
     'note': 'threads and processes are real (statistical reproduction); '
             '"eventually final" is restated as: final before a generous '
             'watchdog while nothing is running any more; the PMGR/bootstrap '
